@@ -35,9 +35,9 @@ CLAIMS = {
     ),
     "C20": (
         "model_checking",
-        "explicit-state BFS over job start/exit/jobs/fg/bg/disown/purge histories on the real job-control functions with stub processes; lock-step dict+MRU reference",
+        "explicit-state BFS over job start/exit/jobs/fg/bg/disown/purge histories on the real job-control functions with stub processes; lock-step dict+MRU reference; preemption-bounded schedules of main thread vs alias thread; every pipeline shape started through the real Execer for the registration decision",
         "seqx",
-        "Breadth-first search over all histories (depth 7 quick / 10 thorough, <= 4 live jobs, 46-event alphabet incl. invalid arguments and commands issued from a worker thread under use_main_jobs) of the real add_job / jobs / fg / bg / disown / get_next_task; every transition is compared with a dict + MRU-list reference and the structural invariants of the statement.",
+        "Breadth-first search over all histories (depth 7 quick / 10 thorough, <= 4 live jobs, 46-event alphabet incl. invalid arguments and commands issued from a worker thread under use_main_jobs) of the real add_job / jobs / fg / bg / disown / get_next_task; every transition is compared with a dict + MRU-list reference and the structural invariants of the statement. Schedule part: main-thread operations (add_job, get_next_task, a job-control command of its own) against an alias thread running jobs/bg/disown under use_main_jobs, all schedules with <= 2 (thorough 3) preemptions, final table must equal some sequential outcome. Registration part: every pipeline shape of <= 2 (thorough 3) stages over {real process, callable alias}, foreground and background, singly and as ordered pairs, is started through the real Execer in a fresh forked session; every background pipeline with a real process must appear once under the lowest free number with its pids, must end when its processes end, and must leave the table after a job-control command.",
         "Process objects, pipeline.resume, signals and terminal hand-over are stubs/recorders; multi-id disown is outside the alphabet; whether disown purges finished jobs first is not constrained.",
         "DESIGN.md §3 C20",
     ),
@@ -51,9 +51,9 @@ CLAIMS = {
     ),
     "C13": (
         "fault_enumeration",
-        "crash-point / torn-write / failing-call enumeration over the recorded file-operation log (JSON, Python level) and over every mutating syscall via strace fault injection (SQLite)",
+        "crash-point / torn-write / short-write / failing-call enumeration over the recorded file-operation log (JSON, Python level) and over every mutating syscall via strace fault injection (SQLite, and JSON independently of the Python API used)",
         "crashx",
-        "For every history-rewriting operation of the JSON back end (background flush, exit flush, delete, erasedups, stale-lock unlock) from several pre-states, the file-system operation log is recorded and then every crash point, every torn-write length (quick: 1, n/2, n-1; thorough: all) and every single failing call is executed in a forked child; each history file must afterwards load and equal its complete old or new version. For SQLite every mutating syscall on the database/journal is killed-at and failed (EIO) with strace injection and the table must be the complete old or new one with integrity_check ok.",
+        "For every history-rewriting operation of the JSON back end (background flush, exit flush, delete, erasedups, stale-lock unlock) from several pre-states, the file-system operation log is recorded and then every crash point, every torn-write length (quick: 1, n/2, n-1; thorough: all) and every single failing call is executed in a forked child; each history file must afterwards load and equal its complete old or new version; every write is additionally answered short (1 or n/2 bytes accepted, the code continues). The same JSON operations run in a child under strace with $TMPDIR on another file system, and every mutating syscall (write, rename*, unlink*, ftruncate, sendfile, copy_file_range) touching the history directory or $TMPDIR is killed-at and failed. For SQLite every mutating syscall on the database/journal is killed-at and failed (EIO) with strace injection and the table must be the complete old or new one with integrity_check ok.",
         "Process-kill model (no lost page cache); CPython's real io stack decides what reaches the kernel; time.time constant inside the module; strace/ptrace must be permitted (otherwise the SQLite part is skipped and says so).",
         "DESIGN.md §3 C13",
     ),
@@ -85,15 +85,15 @@ CLAIMS = {
         "exploration",
         "exhaustive enumeration of history-file collections x units x limit boundary values x force through the real GC on real files, against a reference selection",
         "gramx",
-        "Every collection of up to 4 (thorough 5) history files (command counts 0-3, lock flag, corrupt members, all equal-timestamp patterns, stale-lock boot positions) x unit {files, commands, s, b} x every boundary value of the limit x force is pushed through the real JsonHistory.run_gc on real files written with the real writer (virtual clock/boot time), plus every truncation of a genuine file, 1184 spellings of the limit and all SQLite tables of <= 5 rows x keep 0..6; survivors are compared with a 25-line reference derived from the statement.",
-        "Ties between equal timestamps, the exact-age boundary and the refusal-equality boundary are accepted either way; one synchronous collector, no concurrent directory changes; limits >= 0.",
+        "Every collection of up to 4 (thorough 5) history files (command counts 0-3, lock flag, corrupt members, all equal-timestamp patterns, stale-lock boot positions) x unit {files, commands, s, b} x every boundary value of the limit x force is pushed through the real JsonHistory.run_gc on real files written with the real writer (virtual clock/boot time), plus every truncation of a genuine file, 1184 spellings of the limit and all SQLite tables of <= 5 rows x keep 0..6; survivors are compared with a 25-line reference derived from the statement. Plus every depth-<=3 (thorough 4) sequence of flush / loss or corruption of the open session's file / GC pass on a real open JsonHistory (the open session's file is never collected; its lock flag equals a brand-new session's - differential oracle), and the real GC thread driven through its wait_for_shell handshake with the limit changed while it waits (the limit in force when the GC acts decides).",
+        "Ties between equal timestamps, the exact-age boundary and the refusal-equality boundary are accepted either way; one flusher and one collector at a time, no concurrent directory changes; limits >= 0; virtual time frozen during a sequence; the session file is never emptied to 0 bytes.",
         "DESIGN.md §3 C14",
     ),
     "C06": (
         "model_checking",
         "stateless preemption-bounded exploration of the real reader / proxy / pipeline threads under a controlled scheduler over real pipes",
         "pysched",
-        "All schedules with <= 2 (thorough 3) preemptions of closed harnesses over the real classes: T1 = scripted writer + real NonBlockingFDReader/populate_fd_queue thread + consumer using the real read paths in the iterraw/_read_all patterns, for chunkings around the 1024-byte read size; T2 = the real capture path ($(A), !(A), A | B) with threaded callable-alias stages. The bytes delivered must equal the bytes written, once and in order, the return code must be the final stage's, and no schedule may deadlock, livelock or raise.",
+        "All schedules with <= 2 (thorough 3) preemptions of closed harnesses over the real classes: T1 = scripted writer + real NonBlockingFDReader/populate_fd_queue thread + consumer using the real read paths in the iterraw/_read_all patterns, for chunkings around the 1024-byte read size; T0 = concurrent closers of one PipeChannel followed by the next capture pipe (fd reuse); T2 = the real capture path ($(A), !(A), A | B, two and three commands in a row) with threaded callable-alias stages, including aliases that close their stdout or return their output, with the process-global sys.stdout/sys.stderr (played by sacrificial objects) as part of the shared state; T3 = the same path with a real child process single-stepped as a puppet through FIFOs; plus a free-running (not schedule-exhaustive) size sweep with real children beyond one pipe buffer. The bytes delivered must equal the bytes written, once and in order, the return code must be the final stage's, the session's standard streams must be its own and open afterwards, and no schedule may deadlock, livelock or raise.",
         "Line-level atomicity; payloads below one pipe buffer; os.read / queue.get / time.sleep / locks of the modules under test are cooperative shims (pipes and threads are real); external processes are not single-stepped (see DESIGN §4).",
         "DESIGN.md §3 C06",
     ),
